@@ -250,12 +250,16 @@ func (m *SegmentUInt64Map[V]) Clear() {
 	// For each segment
 	for _, segment := range m.segments {
 		segment.rwlock.Lock()
+		// Subtract what this segment held, measured under its lock: a
+		// blanket count.Store(0) after the loop would erase the Add(1) of a
+		// Set that landed in an already-cleared segment, leaving Len()
+		// permanently below the number of reachable entries.
+		itemsCleared := int64(segment.data.Len())
 		segment.data.Clear()
 		segment.rwlock.Unlock()
-	}
 
-	// Reset count
-	m.count.Store(0)
+		m.count.Add(-itemsCleared)
+	}
 }
 
 // ClearSegment clears a specific segment - for radical eviction
